@@ -41,7 +41,7 @@
 EXTENDS Naturals, Sequences, FiniteSets, TLC
 
 CONSTANTS NS,           \* number of sources (>= 1) = number of source threads
-          SrcKinds,     \* subset of {"yield", "throw", "return"}
+          SrcKinds,     \* subset of {"yield", "return"} \cup ThrowSteps (Aggregator.tla: a failure has a kind of exception)
           MaxSteps,     \* bound on a source's script (its last step is forced to end the source)
           MaxAcc,       \* bound on consumer accesses
           MaxAfterEnd,  \* accesses made after the end / exception was reported
@@ -76,7 +76,7 @@ A == INSTANCE Aggregator WITH WithArg <- FALSE, Threaded <- TRUE, pc <- APc,
                               ci <- 0, run <- 0, ctx <- "none", base <- "idle", nops <- 0,
                               sop <- [s \in Src |-> 0], sgot <- [s \in Src |-> <<>>]
 
-Ob(r, s, v) == [r |-> r, s |-> s, v |-> v]
+Ob(r, s, v) == A!Ob(r, s, v)
 
 Init ==
     /\ ast = "init" /\ count = 0 /\ queue = <<>> /\ waiter = "none" /\ aexp = 0 /\ cur = 0 /\ h = 0
@@ -108,7 +108,7 @@ AggCont(t, s) ==
               /\ IF count = 1
                    THEN /\ sst' = [x \in Src |-> IF sst[x] \in {"done", "exc"} THEN "gone" ELSE "crash"]
                         /\ spar' = [x \in Src |-> 0]
-                        /\ obs' = [obs EXCEPT ![Len(obs)] = IF e # 0 THEN Ob("exc", e, 0) ELSE Ob("end", 0, 0)]
+                        /\ obs' = [obs EXCEPT ![Len(obs)] = IF e # 0 THEN A!ObExc(e) ELSE Ob("end", 0, 0)]
                         /\ ast' = "final" /\ out' = "none"
                         /\ tpc' = [tpc EXCEPT ![t] = Unwind(t)]
                         /\ UNCHANGED cur
@@ -187,13 +187,13 @@ PopAfter(t) ==
 Resolve(s, kind) ==
     /\ tpc[s] = "idle" /\ sst[s] = "await" /\ kind \in SrcKinds
     /\ Len(sscr[s]) < MaxSteps
-    /\ Len(sscr[s]) = MaxSteps - 1 => kind \in {"return", "throw"}
+    /\ Len(sscr[s]) = MaxSteps - 1 => kind \in {"return"} \cup A!ThrowSteps
     /\ sscr' = [sscr EXCEPT ![s] = Append(@, kind)]
     /\ CASE kind = "yield" ->
               /\ sseq' = [sseq EXCEPT ![s] = @ + 1]
               /\ sst' = [sst EXCEPT ![s] = "yield"]
               /\ UNCHANGED sloc
-         [] kind = "throw" ->
+         [] kind \in A!ThrowSteps ->    \* an exception of kind A!ExcKindOf(kind) leaves the source's body
               /\ sloc' = [sloc EXCEPT ![s].dtor = @ + 1]
               /\ sst' = [sst EXCEPT ![s] = "exc"]
               /\ UNCHANGED sseq
@@ -309,7 +309,7 @@ Next ==
     \/ \E c \in {"b", "n"} : Access(c)
     \/ Wake
     \/ \E t \in Thr : PopCS(t) \/ PopAfter(t)
-    \/ \E s \in Src, k \in {"yield", "throw", "return"} : Resolve(s, k)
+    \/ \E s \in Src, k \in SrcKinds : Resolve(s, k)
     \/ \E s \in Src : PushCS(s) \/ PushResolve(s) \/ PushDone(s)
     \/ Destroy \/ DrainCS \/ DrainAfter \/ DrainWake
 
